@@ -43,57 +43,139 @@ def connected_und(A):
     return strongly_connected(((A != 0) | (A != 0).T).astype(int))
 
 
-def gen_graph(r, und, connected=False, weighted=None):
-    """r: np RandomState. Families: ER at several densities, ring + chords, tree + chords, star+path, bridges."""
-    for _ in range(200):
-        n = int(r.randint(4, 10))
-        fam = r.choice(['er', 'ring', 'tree', 'bridge', 'dense']) if connected else r.choice(['er', 'er', 'ring', 'tree', 'dense', 'iso'])
+def scale_of(M):
+    """smallest power of two s with M*s integer-valued.  The model works over Z: the engine only moves weights and
+    tests them against 0, the lattice condition is homogeneous in R and in D, the mask is only tested against 0 —
+    so a dyadic input is sent to the model multiplied by s (exactly, in binary64) and its output divided again."""
+    if M is None:
+        return 1
+    M = np.asarray(M, dtype=float)
+    s = 1
+    while not np.array_equal(M * s, np.round(M * s)):
+        s *= 2
+        if s > 2 ** 20:
+            raise ValueError('entry is not a small dyadic rational')
+    return s
+
+
+def gen_weights(r, A, und, fam):
+    """binary / integer / signed / dyadic (k/8) / signed dyadic weights on the support of A, then a dtype.
+    Presence = nonzero, so the sign is free for every routine, the `_connected` ones included: in their tests P is
+    nonzero only where PN is zero (`P *= logical_not(PN)` precedes `PN += P`), nothing can cancel."""
+    n = len(A)
+    kind = str(r.choice(['bin', 'bin', 'bin', 'bin', 'int', 'int', 'signed', 'dyadic', 'sdyadic']))
+    if kind != 'bin':
+        if kind in ('int', 'signed'):
+            Wt = r.randint(1, 10, size=(n, n)).astype(float)
+        else:
+            Wt = r.randint(1, 41, size=(n, n)) / 8.0
+        if kind in ('signed', 'sdyadic'):
+            Wt = Wt * r.choice([-1, 1], size=(n, n))
+        if und:
+            Wt = np.triu(Wt, 1); Wt = Wt + Wt.T
+        A = A * Wt
+        fam += '+' + kind
+    u = r.rand()
+    if kind == 'bin':
+        dt = 'float64' if u < 0.55 else 'int64' if u < 0.72 else 'bool' if u < 0.9 else 'float32'
+    elif kind in ('int', 'signed'):
+        dt = 'float64' if u < 0.6 else 'int64' if u < 0.9 else 'float32'
+    else:
+        dt = 'float64' if u < 0.85 else 'float32'
+    if dt != 'float64':
+        fam += '+' + dt
+    return A.astype(dt), fam
+
+
+def gen_graph(r, und, connected=False, weighted=None, big=None):
+    """r: np RandomState. Families: ER at several densities, ring + chords, tree + chords, star+path, bridges; exactly two
+    disjoint edges; n = 4..9 mostly, about one in eight with n = 10..20 (long ring + chord, path + chords, two cliques +
+    bridge, sparse ER) so that the connectivity searches run more than four rounds."""
+    for _ in range(400):
+        if big is None:
+            isbig = r.rand() < 0.125
+        else:
+            isbig = big
+        if isbig:
+            n = int(r.randint(10, 21))
+            fam = str(r.choice(['longring', 'path', 'cliques', 'er']))
+        else:
+            n = int(r.randint(4, 10))
+            fam = str(r.choice(['er', 'ring', 'tree', 'bridge', 'dense']) if connected else r.choice(['er', 'er', 'ring', 'tree', 'dense', 'iso', 'twoedges']))
         A = np.zeros((n, n))
         if fam in ('er', 'iso', 'dense'):
-            p = {'er': float(r.choice([0.2, 0.35, 0.5])), 'iso': 0.3, 'dense': 0.8}[fam]
+            p = {'er': float(r.choice([0.2, 0.35, 0.5])) if not isbig else float(r.choice([0.15, 0.25])), 'iso': 0.3, 'dense': 0.8}[fam]
             A = (r.rand(n, n) < p).astype(float)
             if fam == 'iso':
                 z = int(r.randint(n)); A[z, :] = 0; A[:, z] = 0
-        elif fam == 'ring':
+        elif fam in ('ring', 'longring'):
             for i in range(n):
                 A[i, (i + 1) % n] = 1
                 if und or r.rand() < 0.3:
                     A[(i + 1) % n, i] = 1
-            for _c in range(int(r.randint(0, 4))):
+            for _c in range(1 if fam == 'longring' else int(r.randint(0, 4))):
                 x, y = r.randint(n, size=2)
                 A[x, y] = 1
-        elif fam == 'tree':
+        elif fam in ('tree', 'path'):
             for i in range(1, n):
-                pz = int(r.randint(i)); A[i, pz] = 1; A[pz, i] = 1
-            for _c in range(int(r.randint(0, 4))):
+                pz = i - 1 if fam == 'path' else int(r.randint(i)); A[i, pz] = 1; A[pz, i] = 1
+            for _c in range(2 if fam == 'path' else int(r.randint(0, 4))):
                 x, y = r.randint(n, size=2)
                 A[x, y] = 1
-        elif fam == 'bridge':
+        elif fam in ('bridge', 'cliques'):
             h = n // 2
-            A[:h, :h] = r.rand(h, h) < 0.7
-            A[h:, h:] = r.rand(n - h, n - h) < 0.7
+            q = 0.7 if fam == 'bridge' else 1.0
+            A[:h, :h] = r.rand(h, h) < q
+            A[h:, h:] = r.rand(n - h, n - h) < q
             A[h - 1, h] = 1; A[h, h - 1] = 1
+        elif fam == 'twoedges':
+            n = 4; A = np.zeros((n, n)); p4 = r.permutation(4)
+            A[p4[0], p4[1]] = 1; A[p4[2], p4[3]] = 1
+            if not und and r.rand() < 0.3:
+                A[p4[1], p4[0]] = 1
         np.fill_diagonal(A, 0)
         if und:
             A = np.triu(A, 1); A = A + A.T
-        if weighted is None:
-            w = r.rand() < 0.5
-        else:
-            w = weighted
-        if w:
-            Wt = r.randint(1, 10, size=(n, n)).astype(float)
-            if not connected and r.rand() < 0.3:
-                Wt = Wt * r.choice([-1, 1], size=(n, n))   # presence = nonzero: signed weights (not for the _connected routines,
-                fam = str(fam) + '+signed'                  # whose tests accumulate PN += P and are modelled on the support)
-            if und:
-                Wt = np.triu(Wt, 1); Wt = Wt + Wt.T
-            A = A * Wt
+        if isbig:
+            fam = 'n>=10:' + fam
+        if weighted is False:
+            pass
+        elif weighted or r.rand() < 0.55:
+            A, fam = gen_weights(r, A, und, fam)
         if not two_disjoint_edges(A, und):
             continue
         if connected and not (connected_und(A) if und else strongly_connected(A)):
             continue
         return A, str(fam)
     raise RuntimeError('generator failed')
+
+
+def gen_D(r, n, sym):
+    """caller-supplied distance matrix: small integers, dyadic k/4 (the documented use is Euclidean distances: the
+    fractional part matters), occasionally with negative entries; symmetric or not"""
+    kind = str(r.choice(['int', 'int', 'dyadic', 'dyadic', 'sdyadic']))
+    if kind == 'int':
+        D = r.randint(0, 6, size=(n, n)).astype(float)
+    else:
+        D = r.randint(0, 21, size=(n, n)) / 4.0
+        if kind == 'sdyadic':
+            D = D * r.choice([-1, 1, 1, 1], size=(n, n))
+    if sym:
+        D = np.triu(D, 1); D = D + D.T
+    return D, kind
+
+
+def jmat(M):
+    """JSON-able copy of a matrix that keeps fractional entries (cases must be replayable)"""
+    return None if M is None else np.asarray(M).tolist()
+
+
+def case_arrays(c):
+    """(A, D, B) of a pinned / replayed case dict"""
+    A = np.array(c['A'], dtype=c.get('dtype', 'float64'))
+    D = None if c.get('D') is None else np.array(c['D'], dtype=float)
+    B = None if c.get('B') is None else np.array(c['B'], dtype=float)
+    return A, D, B
 
 
 # ---------------------------------------------------------------- running the implementation
@@ -123,29 +205,45 @@ def run_impl(fn, A, itr, seed, D=None, B=None, t=8.0):
     rec = Rec(seed)
     _verif.reset()
     f = getattr(bct, fn)
+    # the implementation gets its own copies: the oracle and the model line read the caller's (untouched) arrays
+    Ac = A.copy(); Dc = None if D is None else D.copy(); Bc = None if B is None else B.copy()
     try:
         if fn == 'randomize_graph_partial_und':
-            out = call(f, A, B, itr, seed=rec, _t=t)
+            out = call(f, Ac, Bc, itr, seed=rec, _t=t)
             res = {'out': out, 'rp': out, 'perm': None, 'eff': None}
         elif fn in LATT:
-            Rl, Rrp, ind, eff = call(f, A, itr, D=D, seed=rec, _t=t)
+            Rl, Rrp, ind, eff = call(f, Ac, itr, D=Dc, seed=rec, _t=t)
             res = {'out': Rl, 'rp': Rrp, 'perm': np.asarray(ind), 'eff': int(eff)}
         else:
-            R, eff = call(f, A, itr, seed=rec, _t=t)
+            R, eff = call(f, Ac, itr, seed=rec, _t=t)
             res = {'out': R, 'rp': R, 'perm': None, 'eff': int(eff)}
         res['error'] = None
     except Timeout:
         res = {'error': 'timeout'}
     except Exception as e:  # noqa
-        res = {'error': type(e).__name__ + ': ' + str(e)[:100]}
+        res = {'error': type(e).__name__ + ': ' + str(e)[:100], 'etype': type(e).__name__}
+    res['mutated'] = not (np.array_equal(Ac, A) and Ac.dtype == A.dtype and (D is None or np.array_equal(Dc, D))
+                          and (B is None or np.array_equal(Bc, B)))
+    res['scale'] = scale_of(A)
     res['events'] = [kw for tag, kw in _verif.LOG if tag == 'swap']
     res['draws'] = flatten_draws(rec.log)
     _verif.reset()
     return res
 
 
+def enc_zmat(M):
+    """matrix -> driver tokens over Z: dyadic entries are scaled by scale_of(M) (see there); zero is written `0`"""
+    M = np.asarray(M, dtype=float)
+    S = M * scale_of(M)
+    return enc_mat([[int(v) for v in row] for row in S.tolist()])
+
+
+def precheck_line(fn, A):
+    return 'precheck %d %s' % (ROUTINES.index(fn), enc_zmat(A))
+
+
 def model_line(fn, A, itr, draws, D=None, B=None):
-    Z = lambda M: enc_mat(np.asarray(M).astype(int).tolist())
+    Z = enc_zmat
     s = '%d %s' % (len(draws), ' '.join(draws))
     if fn == 'randomize_graph_partial_und':
         return 'partial %s %s %d %s' % (Z(A), Z(B), itr, s)
@@ -153,10 +251,30 @@ def model_line(fn, A, itr, draws, D=None, B=None):
     return 'rewire %d %s %d %s %s' % (ROUTINES.index(fn), Z(A), itr, d, s)
 
 
+OUTCOME = {0: 'Done', 1: 'Rejected', 2: 'Raises', 3: 'StreamEnd'}
+
+
+def expected_code(res):
+    """the model outcome that stands for what the implementation did"""
+    if not res['error']:
+        return 0
+    et = res.get('etype')
+    if et == 'BCTParamError':
+        return 1
+    if et in ('ZeroDivisionError', 'ValueError'):
+        return 2
+    return None          # timeout (a loop that never ends: the model can only run out of stream) / anything else
+
+
 def dec_result(m):
-    """decode the driver's JSON for one run"""
+    """decode the driver's JSON for one run: {'code': outcome, 'res': result or null}"""
     if m is None:
         return None
+    if 'code' in m:
+        if m['res'] is None:
+            return {'code': m['code']}
+        d = dec_result(m['res']); d['code'] = m['code']
+        return d
     tr = [{'abcd': e['abcd'], 'R': np.array(dec_deep(e['R'], dec_z), dtype=float).reshape(len(e['R']), -1),
            'i': e['i'], 'j': e['j']} for e in m['trace']]
     n = len(m['out'])
@@ -167,17 +285,23 @@ def dec_result(m):
 
 def compare_run(ctx, key, case, res, mod):
     """correspondence of one run: final matrices, eff, every accepted swap's state, stream fully consumed"""
+    want = expected_code(res)
     if res['error']:
-        if mod is not None:
-            ctx.mismatch(key, 'implementation failed (%s) where the model runs' % res['error'], case)
+        if want is not None and mod['code'] != want:
+            ctx.mismatch(key, 'implementation: %s; model outcome %s (expected %s)' % (res['error'], OUTCOME[mod['code']], OUTCOME[want]), case)
+        elif want is None and mod['code'] == 0:
+            ctx.mismatch(key, 'implementation failed (%s) where the model returns' % res['error'], case)
         return
-    if mod is None:
-        ctx.mismatch(key, 'model rejects / runs out of stream where the implementation returns', case)
+    if mod['code'] != 0:
+        ctx.mismatch(key, 'model outcome %s where the implementation returns' % OUTCOME[mod['code']], case)
         return
-    if not np.array_equal(mod['out'], res['out']):
-        ctx.mismatch(key, 'final matrix differs', case, mod['out'], res['out']); return
-    if not np.array_equal(mod['rp'], res['rp']):
-        ctx.mismatch(key, 'latticised-order matrix differs', case, mod['rp'], res['rp']); return
+    sc = res.get('scale', 1)      # the model ran on sc * A (dyadic weights, see scale_of)
+    if res.get('mutated'):
+        ctx.mismatch(key, "the implementation modified its caller's array (the model, like `R = R.copy()`, works on a value)", case); return
+    if not np.array_equal(mod['out'], np.asarray(res['out'], dtype=float) * sc):
+        ctx.mismatch(key, 'final matrix differs', case, mod['out'] / sc, res['out']); return
+    if not np.array_equal(mod['rp'], np.asarray(res['rp'], dtype=float) * sc):
+        ctx.mismatch(key, 'latticised-order matrix differs', case, mod['rp'] / sc, res['rp']); return
     if res['eff'] is not None and mod['eff'] != res['eff']:
         ctx.mismatch(key, 'eff differs', case, mod['eff'], res['eff']); return
     if mod['left'] != 0:
@@ -186,6 +310,6 @@ def compare_run(ctx, key, case, res, mod):
     if len(ev) != len(mod['trace']):
         ctx.mismatch(key, 'number of accepted swaps differs (hook %d, model %d)' % (len(ev), len(mod['trace'])), case); return
     for t, (e, m) in enumerate(zip(ev, mod['trace'])):
-        if [int(x) for x in e['abcd']] != m['abcd'] or not np.array_equal(e['R'], m['R']) \
+        if [int(x) for x in e['abcd']] != m['abcd'] or not np.array_equal(np.asarray(e['R'], dtype=float) * sc, m['R']) \
            or [int(x) for x in e['i']] != m['i'] or [int(x) for x in e['j']] != m['j']:
             ctx.mismatch(key, 'state after accepted swap %d differs' % t, case, m['abcd'], [int(x) for x in e['abcd']]); return
